@@ -124,8 +124,23 @@ class DimTaint(Taint):
         np_ = callee_name(t["f"])
         return np_ in self.ret_summ and bool(self.ret_summ[np_])
 
+    def passthrough(self, b, t):
+        if last_seg(t["f"]["path"]) in ("next", "into_iter", "rev", "iter", "by_ref") and t["f"].get("crate") != "petgraph":
+            return "LOOP"
+        return super().passthrough(b, t)
+
     def analyse_body(self, b, st):
         ch = super().analyse_body(b, st)
+        # loop ranges: Range { start, end } with a node-count end => the loop variable carries LOOP_CARD_N(g)
+        for _, _, stm in b.stmts():
+            rv = stm["rv"]
+            if rv["k"] == "agg" and rv["ak"] == "adt" and rv["name"] in ("core::ops::Range", "core::ops::RangeInclusive") and len(rv["o"]) >= 2:
+                ts = self.tags_of_op(b, st, rv["o"][1])
+                new = {("LOOP_" + k, g) for (k, g) in ts if k in ("CARD_N", "CARD_E")}
+                d = self.key(b, stm["lhs"])
+                if new and not new <= st[d]:
+                    st[d] |= new
+                    ch = True
         # containers: result of a length sink carries LEN_<tag>(g)
         for i, t in b.calls():
             np_ = norm_path(t["f"]["path"])
@@ -226,6 +241,8 @@ def run(facts, scope=None, rules=("DIM-HINT", "DIM-CARD", "DIM-CARD-E", "DIM-RAW
         "DIM-CARD": RuleResult("DIM-CARD", "a node_count()/edge_count() value never becomes the length of a container in "
                                            "a context where the graph is not known compact (no NodeCompactIndexable), "
                                            "since such containers are indexed by to_index() < node_bound()"),
+        "DIM-RANGE": RuleResult("DIM-RANGE", "a loop over 0..node_count() (0..edge_count()) never turns its loop variable into a node (edge) index of a graph "
+                                             "that is not known compact: live elements with index >= count would never be visited"),
         "DIM-RAW": RuleResult("DIM-RAW", "a raw NodeId::index() of a generic graph never indexes a container whose length is "
                                          "node_bound()/node_count() of that graph (only to_index() is an index)"),
     }
@@ -279,8 +296,33 @@ def run(facts, scope=None, rules=("DIM-HINT", "DIM-CARD", "DIM-CARD-E", "DIM-RAW
                     else:
                         res["DIM-CARD"].ok(b.npath, site, "bound-sized")
                         res["DIM-HINT"].ok(b.npath, site, "not a size_hint")
-            # DIM-RAW
+            # DIM-RANGE
             st = tt.state[b.path]
+            for i, t in b.calls():
+                f = t["f"]
+                cn = callee_name(f)
+                np_ = norm_path(f["path"])
+                kind = None
+                if cn in ("graph_impl::node_index", "graph_impl::NodeIndex::new") or np_ == "visit::NodeIndexable::from_index":
+                    kind = "N"
+                elif cn in ("graph_impl::edge_index", "graph_impl::EdgeIndex::new") or np_ == "visit::EdgeIndexable::from_index":
+                    kind = "E"
+                if kind is None or not t["args"]:
+                    continue
+                tags = tt.tags_of_op(b, st, t["args"][-1])
+                for (k, g) in sorted(tags):
+                    if k != "LOOP_CARD_" + kind:
+                        continue
+                    site = "%s<-0..%s(%s)" % (last_seg(cn), "node_count" if kind == "N" else "edge_count", g)
+                    noncompact = (_compact(facts, root, g) is False) if kind == "N" else adt_head(g) == "graph_impl::stable_graph::StableGraph"
+                    if noncompact:
+                        res["DIM-RANGE"].bad(Violation("DIM-RANGE", b.npath, site, b.file, t["line"],
+                                                       "the loop variable of 0..%s() of %s is used as a%s index, but %s is not known compact: "
+                                                       "elements whose index is >= the count are never visited"
+                                                       % ("node_count" if kind == "N" else "edge_count", g, " node" if kind == "N" else "n edge", g), {}))
+                    else:
+                        res["DIM-RANGE"].ok(b.npath, site, "count-bounded loop over a compact index space")
+            # DIM-RAW
             for i, t in b.calls():
                 f = t["f"]
                 np_ = norm_path(f["path"])
